@@ -83,10 +83,12 @@ def check_last_getters(res, n):
             chdir = os.path.join(work, "g%d" % i, "d" * 100, "e" * 100, "f" * 70, "ch")
         reports, w = wl.run_impl(cfg, ops, chdir)
         m = wl.abs_of_history(cfg, ops, reports)
-        hist = {"cfg": cfg.as_dict(), "ops": [list(op) for op in ops]}
+        closing = wl.CLOSINGS[i % len(wl.CLOSINGS)]
+        hist = {"cfg": cfg.as_dict(), "ops": [list(op) for op in ops], "closed_by": closing}
         for phase in ("open", "closed"):
             if phase == "closed":
-                w.close()
+                wl.close_writer(w, closing)
+                res.count("closed-by:" + closing)
             lf, ld = w.get_last_file_written(), w.get_last_dir_written()
             res.case(("last", cfg.key(), str(ops), phase), nontrivial=False)
             if not m:
